@@ -8,6 +8,7 @@ func flagFlow(c *Ctx, flagName string) { gen.CheckFlagBinding(c.Run, c.Prog, fla
 
 func genMap(c *Ctx) {
 	gen.CheckKinds(c.Run, c.Prog)
+	kindsTable(c)
 	lookupTable(c)
 	// signatures are identical only if every type text carries the right qualifier
 	destinationTables(c)
@@ -15,6 +16,7 @@ func genMap(c *Ctx) {
 
 func genGeneric(c *Ctx) {
 	gen.CheckKinds(c.Run, c.Prog)
+	kindsTable(c)
 	gen.CheckAliasAware(c.Run, c.Prog)
 	lookupTable(c)
 	representativeTable(c)
@@ -32,11 +34,14 @@ func genMocks(c *Ctx) {
 	gen.CheckPure(c.Run, c.Prog, "G-PURE/render-helpers")
 	// the import registry is the one piece of state shared by the mocks of a run
 	gen.CheckImports(c.Run, c.Prog)
+	importTables(c)
 }
 
 func genCompile(c *Ctx) {
 	gen.CheckKinds(c.Run, c.Prog)
+	kindsTable(c)
 	gen.CheckImports(c.Run, c.Prog)
+	importTables(c)
 	if na := gen.CheckAddVar(c.Run, c.Prog); na != nil {
 		gen.CheckReserved(c.Run, c.Prog, na, freeNameList(c, "G-RESERVED"), false)
 	}
